@@ -40,6 +40,8 @@ type FeeCase struct {
 	// Drift: stake changes (in 1/1000 of each validator's power) that take effect after the signer sets were published
 	// and before the batch executes; small ones do not trigger a new signer set
 	Drift []int `json:"drift,omitempty"`
+	// Txs2: a second batch of transfers, executed after the first (what one batch leaves behind must not leak into the next)
+	Txs2 []FeeTx `json:"txs2,omitempty"`
 }
 
 func genFeeCase(t *rapid.T) interface{} {
@@ -69,7 +71,7 @@ func genFeeCase(t *rapid.T) interface{} {
 	if c.DecExec > 18 {
 		unit = pow10(18)
 	}
-	for i := 0; i < n; i++ {
+	mk := func(i int) FeeTx {
 		tx := FeeTx{Origin: rapid.SampledFrom([]int{0, 0, 1, 1, 2}).Draw(t, "origin"), Who: rapid.IntRange(0, 2).Draw(t, "who")}
 		var fee int64
 		switch spread {
@@ -92,7 +94,15 @@ func genFeeCase(t *rapid.T) interface{} {
 			f.Add(f, big.NewInt(rapid.Int64Range(0, 999999).Draw(t, "feedust")))
 		}
 		tx.Amount, tx.Fee = a.String(), f.String()
-		c.Txs = append(c.Txs, tx)
+		return tx
+	}
+	for i := 0; i < n; i++ {
+		c.Txs = append(c.Txs, mk(i))
+	}
+	if rapid.IntRange(0, 2).Draw(t, "second") == 0 {
+		for i, n2 := 0, rapid.SampledFrom([]int{1, 2, 3, 5}).Draw(t, "ntx2"); i < n2; i++ {
+			c.Txs2 = append(c.Txs2, mk(i))
+		}
 	}
 	_ = unit
 	switch rapid.IntRange(0, 3).Draw(t, "paidclass") {
@@ -143,235 +153,267 @@ func runFeeCase(ci interface{}, rec *pbt.Rec) *pbt.Failure {
 		}
 	}
 	nonce := map[string]uint64{}
-	for i, tx := range c.Txs {
-		a, f := bi(tx.Amount), bi(tx.Fee)
-		switch tx.Origin {
-		case 0:
-			h.Deliver(mtypes.NewMsgSendToExternal(mtypes.ChainID(exec), sim.UserAddr(tx.Who), sim.ExtUser(tx.Who).Hex(), sdk.NewCoin("hub", sdk.NewIntFromBigInt(a)), sdk.NewCoin("hub", sdk.NewIntFromBigInt(f))))
-		default:
-			src := "minter"
-			if tx.Origin == 2 {
-				src = other
-			}
-			nonce[src]++
-			claim(src, &mtypes.TransferToChainEvent{EventNonce: nonce[src], ExternalCoinId: ids[src],
-				Amount: sdk.NewIntFromBigInt(bridge.ToExt(dec[src], a)), Fee: sdk.NewIntFromBigInt(bridge.ToExt(dec[src], f)),
-				Sender: sim.ExtUser(tx.Who).Hex(), ReceiverChainId: exec, ExternalReceiver: sim.ExtUser(3).Hex(),
-				ExternalHeight: 100, TxHash: fmt.Sprintf("0x%064x", i+1)})
-		}
-	}
-	// stake drifts after the signer sets of block 1 were published (applied at this block's staking step)
+	stopRun := &pbt.Failure{Key: "__stop"}
+	blk := int64(1)
 	live := append([]int64{}, c.Powers...)
-	for i, d := range c.Drift {
-		if i < len(live) {
-			np := live[i] + live[i]*int64(d)/1000
-			if np >= 1 {
-				live[i] = np
+	// one round = transfers, a batch, its execution, the payout checks; a second round runs on the state the first left
+	round := func(txs []FeeTx, rno int) *pbt.Failure {
+		if rno > 0 {
+			blk++
+			if err := h.Begin(blk, 1600000005+5*blk); err != nil {
+				return stopRun
 			}
 		}
-	}
-	if len(c.Drift) > 0 {
-		lv := append([]int64{}, live...)
-		h.QueueStaking(func(s *sim.SimStaking) {
-			for i := range lv {
-				s.Vals[i].Power = lv[i]
+		for i, tx := range txs {
+			a, f := bi(tx.Amount), bi(tx.Fee)
+			switch tx.Origin {
+			case 0:
+				h.Deliver(mtypes.NewMsgSendToExternal(mtypes.ChainID(exec), sim.UserAddr(tx.Who), sim.ExtUser(tx.Who).Hex(), sdk.NewCoin("hub", sdk.NewIntFromBigInt(a)), sdk.NewCoin("hub", sdk.NewIntFromBigInt(f))))
+			default:
+				src := "minter"
+				if tx.Origin == 2 {
+					src = other
+				}
+				nonce[src]++
+				claim(src, &mtypes.TransferToChainEvent{EventNonce: nonce[src], ExternalCoinId: ids[src],
+					Amount: sdk.NewIntFromBigInt(bridge.ToExt(dec[src], a)), Fee: sdk.NewIntFromBigInt(bridge.ToExt(dec[src], f)),
+					Sender: sim.ExtUser(tx.Who).Hex(), ReceiverChainId: exec, ExternalReceiver: sim.ExtUser(3).Hex(),
+					ExternalHeight: 100, TxHash: fmt.Sprintf("0x%064x", 1000*rno+i+1)})
 			}
-		})
-		rec.Label("stake-drift-before-execution")
-	}
-	if err := h.End(); err != nil {
-		return nil // C05's subject
-	}
-	if err := h.Begin(2, 1600000010); err != nil {
+		}
+		// stake drifts after the signer sets of block 1 were published (applied at this block's staking step)
+		for i, d := range c.Drift {
+			if rno > 0 {
+				break
+			}
+			if i < len(live) {
+				np := live[i] + live[i]*int64(d)/1000
+				if np >= 1 {
+					live[i] = np
+				}
+			}
+		}
+		if len(c.Drift) > 0 && rno == 0 {
+			lv := append([]int64{}, live...)
+			h.QueueStaking(func(s *sim.SimStaking) {
+				for i := range lv {
+					s.Vals[i].Power = lv[i]
+				}
+			})
+			rec.Label("stake-drift-before-execution")
+		}
+		if err := h.End(); err != nil {
+			return stopRun // C05's subject
+		}
+		blk++
+		if err := h.Begin(blk, 1600000005+5*blk); err != nil {
+			return stopRun
+		}
+		bs := h.Batches(exec)
+		if len(bs) == 0 {
+			rec.Label("no-batch")
+			return stopRun
+		}
+		b := bs[0]
+		members := b.Transactions
+		nonce[exec]++
+		payer := sim.ExtUser(3).Hex()
+		payer = "0x00000000000000000000000000000000000fee00"
+		claim(exec, &mtypes.BatchExecutedEvent{ExternalCoinId: ids[exec], EventNonce: nonce[exec], ExternalHeight: 100, BatchNonce: b.BatchNonce,
+			TxHash: "0xexec", FeePaid: sdk.NewIntFromBigInt(bi(c.FeePaid)), FeePayer: payer})
+		prePool := map[uint64]bool{}
+		for _, e := range h.Pool("minter") {
+			prePool[e.Id] = true
+		}
+		supBefore := h.Supply("hub")
+		if err := h.End(); err != nil {
+			rec.Label("blocker-failed")
+			return stopRun // C05's subject
+		}
+		if len(h.Batches(exec)) != len(bs)-1 {
+			return pbt.Failf("harness", "batch not executed")
+		}
+		// what was collected
+		sumFee, sumComm := new(big.Int), new(big.Int)
+		feeByRefund := map[string]*big.Int{}
+		for _, tx := range members {
+			sumFee.Add(sumFee, tx.Fee.Amount.BigInt())
+			sumComm.Add(sumComm, tx.ValCommission.Amount.BigInt())
+			if tx.RefundChainId == "minter" {
+				k := tx.RefundAddress
+				if feeByRefund[k] == nil {
+					feeByRefund[k] = new(big.Int)
+				}
+				feeByRefund[k].Add(feeByRefund[k], bridge.FromExt(c.DecExec, tx.Fee.Amount.BigInt()))
+			}
+		}
+		totalFee := bridge.FromExt(c.DecExec, sumFee)
+		totalComm := bridge.FromExt(c.DecExec, sumComm)
+		// payouts
+		var reimb *big.Int
+		refunds := map[string]*big.Int{}
+		commTo := map[string]*big.Int{}
+		newValue := new(big.Int)
+		for _, e := range h.Pool("minter") {
+			if prePool[e.Id] {
+				continue
+			}
+			v := e.Token.Amount.BigInt()
+			newValue.Add(newValue, bridge.FromExt(c.DecMint, v))
+			switch {
+			case e.TxHash == "#commission":
+				if commTo[e.ExternalRecipient] == nil {
+					commTo[e.ExternalRecipient] = new(big.Int)
+				}
+				commTo[e.ExternalRecipient].Add(commTo[e.ExternalRecipient], v)
+			case e.TxHash == "#fee" && e.ExternalRecipient == payer:
+				if reimb == nil {
+					reimb = new(big.Int)
+				}
+				reimb.Add(reimb, v)
+			case e.TxHash == "#fee":
+				if refunds[e.ExternalRecipient] == nil {
+					refunds[e.ExternalRecipient] = new(big.Int)
+				}
+				refunds[e.ExternalRecipient].Add(refunds[e.ExternalRecipient], v)
+			default:
+				return pbt.Failf("unexpected-payout", "unexpected new minter transfer %d (%s) to %s", e.Id, e.TxHash, e.ExternalRecipient)
+			}
+		}
+		// 1. reimbursement within collected fees
+		if reimb != nil && reimb.Cmp(bridge.ToExt(c.DecMint, totalFee)) > 0 {
+			return pbt.Failf("reimbursement-exceeds-fees", "relayer reimbursed %s (minter units), fees collected in the batch are %s", reimb, bridge.ToExt(c.DecMint, totalFee))
+		}
+		// 2. refunds: only to minter-origin users, never above what they paid
+		for addr, r := range refunds {
+			paid := feeByRefund[addr]
+			if paid == nil {
+				return pbt.Failf("refund-to-non-minter-origin", "fee refund of %s to %s, which is not the refund address of a minter-origin transfer of the batch", r, addr)
+			}
+			if r.Cmp(bridge.ToExt(c.DecMint, paid)) > 0 {
+				return pbt.Failf("refund-exceeds-fee-paid", "fee refund %s to %s exceeds the fee paid %s", r, addr, bridge.ToExt(c.DecMint, paid))
+			}
+		}
+		// 3. commission: proportional to power among validators with a minter key, sum within collected
+		var stakeSum int64
+		for i, p := range live {
+			if !c.NoMinter[i] {
+				stakeSum += p
+			}
+		}
+		commSum := new(big.Int)
+		for i, p := range live {
+			addr := sim.EthAddr(i, "minter", 0).Hex()
+			got := commTo[addr]
+			if c.NoMinter[i] {
+				if got != nil {
+					return pbt.Failf("commission-to-keyless", "validator %d has no minter key but was paid %s", i, got)
+				}
+				continue
+			}
+			if got == nil {
+				got = new(big.Int)
+			}
+			commSum.Add(commSum, got)
+			delete(commTo, addr)
+			// exact proportional share in minter units, tolerance: normalisation to 2^32 and three truncations
+			ideal := new(big.Rat).SetFrac(new(big.Int).Mul(bridge.ToExt(c.DecMint, totalComm), big.NewInt(p)), big.NewInt(stakeSum))
+			lo := new(big.Rat).Sub(ideal, new(big.Rat).SetFrac(bridge.ToExt(c.DecMint, totalComm), big.NewInt(1<<28)))
+			lo.Sub(lo, big.NewRat(3, 1))
+			lo.Sub(lo, new(big.Rat).SetInt(pow10(maxU(c.DecMint, 18)-18)))
+			hi := new(big.Rat).Add(ideal, new(big.Rat).SetFrac(bridge.ToExt(c.DecMint, totalComm), big.NewInt(1<<28)))
+			hi.Add(hi, big.NewRat(3, 1))
+			g := new(big.Rat).SetInt(got)
+			if g.Cmp(lo) < 0 || g.Cmp(hi) > 0 {
+				return pbt.Failf("commission-not-proportional", "validator %d (power %d of %d) was paid %s of a commission of %s; proportional share is %s", i, p, stakeSum, got, bridge.ToExt(c.DecMint, totalComm), ideal.FloatString(3))
+			}
+		}
+		for addr, v := range commTo {
+			return pbt.Failf("commission-to-stranger", "commission %s paid to %s which is no validator's minter address", v, addr)
+		}
+		if commSum.Cmp(bridge.ToExt(c.DecMint, totalComm)) > 0 {
+			return pbt.Failf("commission-exceeds-collected", "commission payouts %s exceed the commission collected %s", commSum, bridge.ToExt(c.DecMint, totalComm))
+		}
+		// 4. value conservation: supply growth + new in-flight value never exceeds what was collected
+		growth := new(big.Int).Sub(h.Supply("hub"), supBefore)
+		if new(big.Int).Add(growth, newValue).Cmp(new(big.Int).Add(totalFee, totalComm)) > 0 {
+			return pbt.Failf("payouts-exceed-collected", "supply grew by %s and %s went in flight, but the batch collected only fee %s + commission %s", growth, newValue, totalFee, totalComm)
+		}
+		// 5. fee records
+		ctx := h.Ctx()
+		seen := map[string]bool{}
+		for _, tx := range members {
+			if tx.TxHash == "" || tx.TxHash[0] == '#' || seen[tx.TxHash] {
+				continue
+			}
+			seen[tx.TxHash] = true
+			// the record as reported to users (TransactionFeeRecord query)
+			qr, qerr := h.K.TransactionFeeRecord(sdk.WrapSDKContext(ctx), &mtypes.TransactionFeeRecordRequest{TxHash: tx.TxHash})
+			if qerr != nil || qr == nil {
+				return pbt.Failf("fee-record-query", "TransactionFeeRecord(%s): %v", tx.TxHash, qerr)
+			}
+			r := qr.Record
+			if r == nil {
+				return pbt.Failf("fee-record-missing", "no fee record for executed transfer %d", tx.Id)
+			}
+			if r.ExternalFee.IsNegative() || r.ExternalFee.BigInt().Cmp(tx.Fee.Amount.BigInt()) > 0 {
+				return pbt.Failf("fee-record-out-of-range", "fee record of transfer %d reports %s kept, fee paid was %s (external units, decimals %d)", tx.Id, r.ExternalFee, tx.Fee.Amount, c.DecExec)
+			}
+			if r.ValCommission.BigInt().Cmp(tx.ValCommission.Amount.BigInt()) != 0 {
+				return pbt.Failf("fee-record-commission", "fee record of transfer %d reports commission %s, charged %s", tx.Id, r.ValCommission, tx.ValCommission.Amount)
+			}
+			// kept = paid - refund (exact when the refund is visible without rounding)
+			if tx.RefundChainId == "minter" && c.DecMint == 18 {
+				cnt := 0
+				for _, o := range members {
+					if o.RefundChainId == "minter" && o.RefundAddress == tx.RefundAddress {
+						cnt++
+					}
+				}
+				if cnt == 1 {
+					ref := refunds[tx.RefundAddress]
+					if ref == nil {
+						ref = new(big.Int)
+					}
+					want := new(big.Int).Sub(tx.Fee.Amount.BigInt(), bridge.ToExt(c.DecExec, ref))
+					d := new(big.Int).Sub(r.ExternalFee.BigInt(), want)
+					if d.CmpAbs(big.NewInt(1)) > 0 {
+						return pbt.Failf("fee-record-not-fee-minus-refund", "transfer %d paid %s, was refunded %s hub units, record says %s kept (expected %s)", tx.Id, tx.Fee.Amount, ref, r.ExternalFee, want)
+					}
+				}
+			}
+		}
+		partial := reimb != nil && reimb.Sign() > 0 && reimb.Cmp(bridge.ToExt(c.DecMint, totalFee)) < 0
+		rec.NonTrivial = partial && len(members) >= 2
+		if partial {
+			rec.Label("partial-reimbursement")
+		}
+		if len(refunds) > 0 {
+			rec.Label("user-refunds")
+		}
+		if len(members) == 100 {
+			rec.Label("full-batch")
+		}
+		if c.DecExec != 18 {
+			rec.Label("decimals!=18")
+		}
 		return nil
 	}
-	bs := h.Batches(exec)
-	if len(bs) == 0 {
-		rec.Label("no-batch")
-		return nil
+	if f := round(c.Txs, 0); f != nil {
+		if f == stopRun {
+			return nil
+		}
+		return f
 	}
-	b := bs[0]
-	members := b.Transactions
-	nonce[exec]++
-	payer := sim.ExtUser(3).Hex()
-	payer = "0x00000000000000000000000000000000000fee00"
-	claim(exec, &mtypes.BatchExecutedEvent{ExternalCoinId: ids[exec], EventNonce: nonce[exec], ExternalHeight: 100, BatchNonce: b.BatchNonce,
-		TxHash: "0xexec", FeePaid: sdk.NewIntFromBigInt(bi(c.FeePaid)), FeePayer: payer})
-	prePool := map[uint64]bool{}
-	for _, e := range h.Pool("minter") {
-		prePool[e.Id] = true
-	}
-	supBefore := h.Supply("hub")
-	if err := h.End(); err != nil {
-		rec.Label("blocker-failed")
-		return nil // C05's subject
-	}
-	if len(h.Batches(exec)) != len(bs)-1 {
-		return pbt.Failf("harness", "batch not executed")
-	}
-	// what was collected
-	sumFee, sumComm := new(big.Int), new(big.Int)
-	feeByRefund := map[string]*big.Int{}
-	for _, tx := range members {
-		sumFee.Add(sumFee, tx.Fee.Amount.BigInt())
-		sumComm.Add(sumComm, tx.ValCommission.Amount.BigInt())
-		if tx.RefundChainId == "minter" {
-			k := tx.RefundAddress
-			if feeByRefund[k] == nil {
-				feeByRefund[k] = new(big.Int)
+	if len(c.Txs2) > 0 {
+		rec.Label("second-batch")
+		if f := round(c.Txs2, 1); f != nil {
+			if f == stopRun {
+				return nil
 			}
-			feeByRefund[k].Add(feeByRefund[k], bridge.FromExt(c.DecExec, tx.Fee.Amount.BigInt()))
+			f.Msg = "second batch: " + f.Msg
+			return f
 		}
-	}
-	totalFee := bridge.FromExt(c.DecExec, sumFee)
-	totalComm := bridge.FromExt(c.DecExec, sumComm)
-	// payouts
-	var reimb *big.Int
-	refunds := map[string]*big.Int{}
-	commTo := map[string]*big.Int{}
-	newValue := new(big.Int)
-	for _, e := range h.Pool("minter") {
-		if prePool[e.Id] {
-			continue
-		}
-		v := e.Token.Amount.BigInt()
-		newValue.Add(newValue, bridge.FromExt(c.DecMint, v))
-		switch {
-		case e.TxHash == "#commission":
-			if commTo[e.ExternalRecipient] == nil {
-				commTo[e.ExternalRecipient] = new(big.Int)
-			}
-			commTo[e.ExternalRecipient].Add(commTo[e.ExternalRecipient], v)
-		case e.TxHash == "#fee" && e.ExternalRecipient == payer:
-			if reimb == nil {
-				reimb = new(big.Int)
-			}
-			reimb.Add(reimb, v)
-		case e.TxHash == "#fee":
-			if refunds[e.ExternalRecipient] == nil {
-				refunds[e.ExternalRecipient] = new(big.Int)
-			}
-			refunds[e.ExternalRecipient].Add(refunds[e.ExternalRecipient], v)
-		default:
-			return pbt.Failf("unexpected-payout", "unexpected new minter transfer %d (%s) to %s", e.Id, e.TxHash, e.ExternalRecipient)
-		}
-	}
-	// 1. reimbursement within collected fees
-	if reimb != nil && reimb.Cmp(bridge.ToExt(c.DecMint, totalFee)) > 0 {
-		return pbt.Failf("reimbursement-exceeds-fees", "relayer reimbursed %s (minter units), fees collected in the batch are %s", reimb, bridge.ToExt(c.DecMint, totalFee))
-	}
-	// 2. refunds: only to minter-origin users, never above what they paid
-	for addr, r := range refunds {
-		paid := feeByRefund[addr]
-		if paid == nil {
-			return pbt.Failf("refund-to-non-minter-origin", "fee refund of %s to %s, which is not the refund address of a minter-origin transfer of the batch", r, addr)
-		}
-		if r.Cmp(bridge.ToExt(c.DecMint, paid)) > 0 {
-			return pbt.Failf("refund-exceeds-fee-paid", "fee refund %s to %s exceeds the fee paid %s", r, addr, bridge.ToExt(c.DecMint, paid))
-		}
-	}
-	// 3. commission: proportional to power among validators with a minter key, sum within collected
-	var stakeSum int64
-	for i, p := range live {
-		if !c.NoMinter[i] {
-			stakeSum += p
-		}
-	}
-	commSum := new(big.Int)
-	for i, p := range live {
-		addr := sim.EthAddr(i, "minter", 0).Hex()
-		got := commTo[addr]
-		if c.NoMinter[i] {
-			if got != nil {
-				return pbt.Failf("commission-to-keyless", "validator %d has no minter key but was paid %s", i, got)
-			}
-			continue
-		}
-		if got == nil {
-			got = new(big.Int)
-		}
-		commSum.Add(commSum, got)
-		delete(commTo, addr)
-		// exact proportional share in minter units, tolerance: normalisation to 2^32 and three truncations
-		ideal := new(big.Rat).SetFrac(new(big.Int).Mul(bridge.ToExt(c.DecMint, totalComm), big.NewInt(p)), big.NewInt(stakeSum))
-		lo := new(big.Rat).Sub(ideal, new(big.Rat).SetFrac(bridge.ToExt(c.DecMint, totalComm), big.NewInt(1<<28)))
-		lo.Sub(lo, big.NewRat(3, 1))
-		lo.Sub(lo, new(big.Rat).SetInt(pow10(maxU(c.DecMint, 18)-18)))
-		hi := new(big.Rat).Add(ideal, new(big.Rat).SetFrac(bridge.ToExt(c.DecMint, totalComm), big.NewInt(1<<28)))
-		hi.Add(hi, big.NewRat(3, 1))
-		g := new(big.Rat).SetInt(got)
-		if g.Cmp(lo) < 0 || g.Cmp(hi) > 0 {
-			return pbt.Failf("commission-not-proportional", "validator %d (power %d of %d) was paid %s of a commission of %s; proportional share is %s", i, p, stakeSum, got, bridge.ToExt(c.DecMint, totalComm), ideal.FloatString(3))
-		}
-	}
-	for addr, v := range commTo {
-		return pbt.Failf("commission-to-stranger", "commission %s paid to %s which is no validator's minter address", v, addr)
-	}
-	if commSum.Cmp(bridge.ToExt(c.DecMint, totalComm)) > 0 {
-		return pbt.Failf("commission-exceeds-collected", "commission payouts %s exceed the commission collected %s", commSum, bridge.ToExt(c.DecMint, totalComm))
-	}
-	// 4. value conservation: supply growth + new in-flight value never exceeds what was collected
-	growth := new(big.Int).Sub(h.Supply("hub"), supBefore)
-	if new(big.Int).Add(growth, newValue).Cmp(new(big.Int).Add(totalFee, totalComm)) > 0 {
-		return pbt.Failf("payouts-exceed-collected", "supply grew by %s and %s went in flight, but the batch collected only fee %s + commission %s", growth, newValue, totalFee, totalComm)
-	}
-	// 5. fee records
-	ctx := h.Ctx()
-	seen := map[string]bool{}
-	for _, tx := range members {
-		if tx.TxHash == "" || tx.TxHash[0] == '#' || seen[tx.TxHash] {
-			continue
-		}
-		seen[tx.TxHash] = true
-		// the record as reported to users (TransactionFeeRecord query)
-		qr, qerr := h.K.TransactionFeeRecord(sdk.WrapSDKContext(ctx), &mtypes.TransactionFeeRecordRequest{TxHash: tx.TxHash})
-		if qerr != nil || qr == nil {
-			return pbt.Failf("fee-record-query", "TransactionFeeRecord(%s): %v", tx.TxHash, qerr)
-		}
-		r := qr.Record
-		if r == nil {
-			return pbt.Failf("fee-record-missing", "no fee record for executed transfer %d", tx.Id)
-		}
-		if r.ExternalFee.IsNegative() || r.ExternalFee.BigInt().Cmp(tx.Fee.Amount.BigInt()) > 0 {
-			return pbt.Failf("fee-record-out-of-range", "fee record of transfer %d reports %s kept, fee paid was %s (external units, decimals %d)", tx.Id, r.ExternalFee, tx.Fee.Amount, c.DecExec)
-		}
-		if r.ValCommission.BigInt().Cmp(tx.ValCommission.Amount.BigInt()) != 0 {
-			return pbt.Failf("fee-record-commission", "fee record of transfer %d reports commission %s, charged %s", tx.Id, r.ValCommission, tx.ValCommission.Amount)
-		}
-		// kept = paid - refund (exact when the refund is visible without rounding)
-		if tx.RefundChainId == "minter" && c.DecMint == 18 {
-			cnt := 0
-			for _, o := range members {
-				if o.RefundChainId == "minter" && o.RefundAddress == tx.RefundAddress {
-					cnt++
-				}
-			}
-			if cnt == 1 {
-				ref := refunds[tx.RefundAddress]
-				if ref == nil {
-					ref = new(big.Int)
-				}
-				want := new(big.Int).Sub(tx.Fee.Amount.BigInt(), bridge.ToExt(c.DecExec, ref))
-				d := new(big.Int).Sub(r.ExternalFee.BigInt(), want)
-				if d.CmpAbs(big.NewInt(1)) > 0 {
-					return pbt.Failf("fee-record-not-fee-minus-refund", "transfer %d paid %s, was refunded %s hub units, record says %s kept (expected %s)", tx.Id, tx.Fee.Amount, ref, r.ExternalFee, want)
-				}
-			}
-		}
-	}
-	partial := reimb != nil && reimb.Sign() > 0 && reimb.Cmp(bridge.ToExt(c.DecMint, totalFee)) < 0
-	rec.NonTrivial = partial && len(members) >= 2
-	if partial {
-		rec.Label("partial-reimbursement")
-	}
-	if len(refunds) > 0 {
-		rec.Label("user-refunds")
-	}
-	if len(members) == 100 {
-		rec.Label("full-batch")
-	}
-	if c.DecExec != 18 {
-		rec.Label("decimals!=18")
 	}
 	return nil
 }
